@@ -66,7 +66,7 @@ def ingest(pid, letter, root='/tmp/mut', store=None):
 
 def evaluate(ids):
     seeded = os.path.join(VERIF, 'seeded')
-    ids = ids or sorted(x for x in os.listdir(seeded) if os.path.isdir(os.path.join(seeded, x)))
+    ids = ids or sorted(x for x in os.listdir(seeded) if os.path.isfile(os.path.join(seeded, x, 'meta.json')))
     wt = tempfile.mkdtemp(prefix='seedwt-', dir='/tmp')
     os.rmdir(wt)
     assert sh('git -C /repo worktree add --detach %s HEAD' % wt).returncode == 0
